@@ -483,6 +483,19 @@ fn random_damage(tok: &str, rng: &mut Rng) -> String {
             }
         }
     }
+    // sometimes make the damaged token over-long as well, with a multi-byte character
+    // somewhere near its start (whatever the refusal message is built from, it is a refusal)
+    if rng.chance(1, 5) {
+        let multi = *rng.pick(&['é', 'ß', '日', '\u{1F600}', '\u{80}', '\u{7FF}', '\u{FFFD}']);
+        let at = (rng.below(64) as usize).min(cs.len());
+        cs.insert(at, multi);
+        let want = 513 + rng.below(200) as usize;
+        let mut len: usize = cs.iter().map(|c| c.len_utf8()).sum();
+        while len < want {
+            cs.push(*rng.pick(&['A', 'b', '7', '-', '_', 'é']));
+            len = cs.iter().map(|c| c.len_utf8()).sum();
+        }
+    }
     cs.into_iter().collect()
 }
 
